@@ -838,9 +838,12 @@ class Table(Vector):
 					f"source table has {len(value.cols())} cols."
 				)
 			
-			# We delegate row-length validation to the vector.__setitem__ calls below
+			# We delegate row-length validation to the vector.__setitem__ calls below.
+			# The source may be this very table (or share live columns with it): read every source
+			# column as it is now, before the first column is written.
+			sources = [col.copy() for col in value.cols()]
 			for i, col_idx in enumerate(target_indices):
-				self._underlying[col_idx][row_spec] = value.cols()[i]
+				self._underlying[col_idx][row_spec] = sources[i]
 			return
 
 		# CASE D: Raw 2D Iterable Assignment (List of Columns? List of Rows?)
@@ -861,9 +864,12 @@ class Table(Vector):
 			if len(value) != len(target_indices):
 				raise SerifValueError(f"Shape mismatch: expected {len(target_indices)} columns/items.")
 			
-			# Assume value[i] corresponds to target_indices[i]
+			# Assume value[i] corresponds to target_indices[i]. An item may be a live column of this
+			# very table (t[:, ['a', 'b']] = [t['b'], t['a']]): take the items as they are now, before
+			# the first column is written.
+			sources = [item.copy() if isinstance(item, Vector) else item for item in value]
 			for i, col_idx in enumerate(target_indices):
-				self._underlying[col_idx][row_spec] = value[i]
+				self._underlying[col_idx][row_spec] = sources[i]
 			return
 
 		raise SerifTypeError(f"Unsupported assignment value type: {type(value)}")
